@@ -116,6 +116,7 @@ func (k EndKind) String() string { return [...]string{"idle", "eof", "err", "fin
 // Script drives one connection.
 type Script struct {
 	Handshake     string // "", "garbage", "close", "autherr", "reset"
+	SetHold       bool   // withhold the answer to the SET @master_binlog_checksum query until released
 	SetReject     bool   // answer the SET @master_binlog_checksum query with ERR
 	SetRejectCode uint16 // error code for SetReject (0 = 1193)
 	SetClose      bool   // close the socket instead of answering the SET query
@@ -465,6 +466,17 @@ func (m *Master) serve(c net.Conn, cl *ConnLog, scr *Script) {
 			switch {
 			case strings.HasPrefix(lq, "select @@max_allowed_packet"):
 				m.sendMaxAllowedPacket(p)
+			case strings.Contains(lq, "master_binlog_checksum") && scr.SetHold:
+				cl.mu.Lock()
+				cl.HoldReached = true
+				cl.mu.Unlock()
+				m.Tr.Add("hold-reached", int64(cl.Index), -1, "set")
+				select {
+				case <-m.hold:
+					p.writePacket(okPacket())
+				case <-m.done:
+					return
+				}
 			case strings.Contains(lq, "master_binlog_checksum") && scr.SetClose:
 				return
 			case strings.Contains(lq, "master_binlog_checksum") && scr.SetReject:
